@@ -473,6 +473,19 @@ type monC02 struct{ base }
 func (m *monC02) Name() string { return "C02" }
 
 func (m *monC02) OnObs(w *World, o *Obs) {
+	if o.Kind == "lab.spend" {
+		// script laboratory: the expectation already contains BIP68 for the attempt's version
+		f := strings.Split(o.Str, "|")
+		if len(f) < 7 {
+			return
+		}
+		expect, got := strings.TrimPrefix(f[3], "expect="), strings.TrimPrefix(f[4], "got=")
+		w.Probe("C02:verdict:" + expect)
+		if expect != got {
+			w.Violate("C02", fmt.Sprintf("script-verdict:lab:%s:expected-%s", f[0], expect), "script laboratory (%s): witness [%s] with %s at output %s was %sed by the script engine, the specification says %s (%s)", f[5], f[0], f[1], f[2], got, expect, f[6])
+		}
+		return
+	}
 	if o.Kind != "adv.spend" {
 		return
 	}
